@@ -39,6 +39,11 @@ def k1_binary(a: List[int], b: List[int]) -> bool:
     pre: all(0 <= x <= 255 for x in a) and all(0 <= x <= 255 for x in b)
     post: __return__
     """
+    return binary_body(a, b)
+
+
+def binary_body(a, b):
+    # (plain function shared with C12: contracted callees are assumed correct by CrossHair)
     A, B = bytes(a), bytes(b)
     fs = fakefs.FakeFS({'/out/a.bin': A, '/ref/r.bin': B})
     with fakefs.patched(fs, cf, bc):
@@ -172,6 +177,10 @@ def _lines_equal_mod_final_newline(text, lines):
     return t == l2
 
 
+def _drop_first(lines):
+    return lines[1:]
+
+
 def k3_artefacts(actual: str, ref: str) -> bool:
     """
     pre: len(actual) <= P['nc'] and len(ref) <= P['nc']
@@ -182,6 +191,8 @@ def k3_artefacts(actual: str, ref: str) -> bool:
         opts['remove_lines'] = ['!']
     if P.get('ign'):
         opts['ignore_substrings'] = ['#']
+    if P.get('pre'):
+        opts['preprocess'] = _drop_first
     fs = fakefs.FakeFS({'/ref/r.txt': ref}, dirs=[TMP, '/ref'])
     saved_marker = FilesComparison.diff_marker
     FilesComparison.diff_marker = lambda self, left, right: '<>'
@@ -229,6 +240,8 @@ def lift_artefacts(actual, ref):
             opts['remove_lines'] = ['!']
         if P.get('ign'):
             opts['ignore_substrings'] = ['#']
+        if P.get('pre'):
+            opts['preprocess'] = _drop_first
         fc = FilesComparison(verbose=False, tmp_dir=tmp)
         code, msgs = fc.check_string_against_file(actual, refp, **opts)
         if code == 0:
@@ -267,14 +280,15 @@ def _obs():
                       param={'nla': nla, 'nle': nle, 'nc': nc, 'split': split}, timeout=to,
                       tier=tier, lift='lift_reconstruction',
                       stubs=['diff_marker -> constant (both sides get the same marker)', 'add_failures captured']))
-    for rem, ign, nc, tier, to in ((0, 0, 2, 'quick', 300), (1, 0, 2, 'quick', 300), (1, 1, 2, 'quick', 300),
-                                   (1, 1, 3, 'thorough', 3000), (0, 0, 3, 'thorough', 3000)):
+    for rem, ign, pre, nc, tier, to in ((0, 0, 0, 2, 'quick', 300), (1, 0, 0, 2, 'quick', 300), (1, 1, 0, 2, 'quick', 300),
+                                        (0, 0, 1, 2, 'quick', 300), (1, 1, 1, 3, 'thorough', 3000),
+                                        (0, 0, 0, 3, 'thorough', 3000)):
         obs.append(Ob('K3', 'k3_artefacts', 'string-vs-file: a pass writes nothing; a failure writes only under '
                       'tmp_dir, names a command whose files all exist, and actual-raw-* holds the actual lines; the '
                       'reference file is untouched and nothing is deleted',
-                      'actual, reference text: any strings len<=%d; remove_lines=%s ignore_substrings=%s'
-                      % (nc, ['!'] if rem else None, ['#'] if ign else None),
-                      param={'rem': rem, 'ign': ign, 'nc': nc}, timeout=to, tier=tier, lift='lift_artefacts',
+                      'actual, reference text: any strings len<=%d; remove_lines=%s ignore_substrings=%s preprocess=%s'
+                      % (nc, ['!'] if rem else None, ['#'] if ign else None, 'drop-first-line' if pre else None),
+                      param={'rem': rem, 'ign': ign, 'pre': pre, 'nc': nc}, timeout=to, tier=tier, lift='lift_artefacts',
                       stubs=['fakefs', 'diff_marker -> constant']))
     return obs
 
